@@ -55,6 +55,8 @@ def check(run, project):
     run.explanation = ("loop specialisation of the framing walkers with the field lists from L, abstract traces of "
                        "create/register/arm/process/close events per (tag, response code, payload kind) variant; region "
                        "life cycle and governed sets checked on every trace; CFG dominance and who-may-call rules for the rest")
+    from .carriers import check_carriers
+    check_carriers(run, project, "R7", {"constraint", "violator_path", "exceeded_by", "violator_value"})
     mod = roles.mod
     n_traces = 0
     owners = [("process_command", L.Command), ("process_response", L.Response), ("process_tpm2b", None)]
